@@ -24,7 +24,8 @@ RULE = ("Inclusion family: a schedule = a world (attestation_inclusion on/off, d
         "block the beacon node serves -- none (404 plain / wrapped), nil, found, empty, attestations of several slots / roots / "
         "committee subsets / duplicates --, failures of each beacon-node call per ticker second) + Submitted calls (proposals plain / "
         "blinded / synthetic of 3 forks, attestations and aggregates of 5 forks, sets of 1..3 validators, re-submissions, invalid "
-        "data, untracked duty types) at a virtual time or from inside a beacon-node call of the loop; generated (a) by TLC "
+        "data, untracked duty types) at a virtual time or from inside a beacon-node call of the loop, directly or (every fifth "
+        "schedule) through the Broadcaster edge of core.Wire + core.WithTracking with a broadcaster that may fail; generated (a) by TLC "
         "simulation of InclusionGen (history variable, lags 6 / 32 as in the code) and (b) by a seeded random generator aiming at "
         "the window ends (block at duty+32 / +33), epoch boundaries, byte boundaries of the bitlists, stale index snapshots; "
         "executed on the real tracker.NewInclusion + Run inside testing/synctest; every trace validated by InclusionTrace.tla "
@@ -36,6 +37,11 @@ ASSUMPTIONS = [
     "the beacon node lists all committees of a slot in index order and a submitted attestation names a committee that exists; "
     "attestations with the same data root have aggregation bits of the same length (Bitlist.Or would fail the whole check)",
     "the checker starts at slot >= InclCheckLag + InclMissedLag (no uint64 wrap-around) except in the directed probe of F6",
+    "a block carries attestations of earlier slots only; the beacon committees the node lists seat the cluster's validators where the "
+    "attester duty table says (the contract's 'validator's bit' is the seat at the attestation's slot)",
+    "contract where the doc comments are silent: a proposal without block may be reported missed at the check of its slot (flag off) or "
+    "by Trim (flag on); a slot whose check the beacon node failed for a whole slot is never checked again; a later submission under "
+    "the same (duty, pubkey) replaces the earlier one without a report; a submission made after its block was checked is reported missed",
     "map-iteration order of Go is not controlled: the trace spec accepts every order of the reports of one critical section and "
     "(F3) every order of the committee map; which entries of a failed Submitted call were stored is inferred by TLC",
 ]
